@@ -279,6 +279,7 @@ func c16RunPlace(op string) eng.Result {
 	}
 	if op == "=" {
 		c16BothWhens(&res, ss)
+		c16NestedUsesWhens(&res, ss)
 		c16Compound(&res, ss)
 		c16WhenAndWhere(&res, ss)
 	}
@@ -339,6 +340,41 @@ func c16BothWhens(res *eng.Result, ss *sigSet) {
 				ss.add(site+"/read/error-aborts-read", desc+": "+err.Error())
 			case c16Has(got, p.guarded) != truth:
 				ss.add(site+fmt.Sprintf("/read/visible-%v-want-%v", c16Has(got, p.guarded), truth), desc+fmt.Sprintf("; read gives %s", got))
+			}
+		}
+	}
+}
+
+// c16NestedUsesWhens: a uses with a when inside a grouping that is used with a when, around a leaf
+// with a when of its own: the leaf is there exactly when all three hold.
+func c16NestedUsesWhens(res *eng.Result, ss *sigSet) {
+	m := model.LoadText(`module wn { namespace "urn:wn"; prefix wn; revision 0;
+  grouping gi { leaf gn { when "uz<20"; type string; } leaf gp { type string; } }
+  grouping go { uses gi { when "uz>5"; } leaf gq { type string; } }
+  container u { leaf uz { type int32; } uses go { when "uz!=10"; } }
+}`)
+	for _, leaf := range []string{"gn", "gp", "gq"} {
+		for _, ov := range []int{3, 6, 10, 17, 25} {
+			truth := map[string]bool{"gn": ov != 10 && ov > 5 && ov < 20, "gp": ov != 10 && ov > 5, "gq": ov != 10}[leaf]
+			t := model.NewTree()
+			c16Put(t, "u/uz", val.Int32(ov), "leaf")
+			c16Put(t, "u/"+leaf, val.String("gg"), "leaf")
+			got := model.NewTree()
+			var err error
+			fr, msg, pan := eng.Recover(func() {
+				err = node.NewBrowser(m, store.NewRef(t).Node()).Root().UpsertInto(store.ContainerNode(got))
+			})
+			res.Evals++
+			res.Nontriv++
+			site := fmt.Sprintf("C16/place/nested-uses/%s/operand-%d", map[string]string{"gn": "three-whens", "gp": "two-handed-down-whens", "gq": "outer-when-only"}[leaf], ov)
+			desc := fmt.Sprintf("leaf %s, operand %d", leaf, ov)
+			switch {
+			case pan:
+				ss.add(site+"/read/panic:"+fr, desc+": "+msg)
+			case err != nil:
+				ss.add(site+"/read/error-aborts-read", desc+": "+err.Error())
+			case c16Has(got, "u/"+leaf) != truth:
+				ss.add(site+fmt.Sprintf("/read/visible-%v-want-%v", c16Has(got, "u/"+leaf), truth), desc+fmt.Sprintf("; read gives %s", got))
 			}
 		}
 	}
